@@ -27,3 +27,62 @@ def writeInt (v : Int) : Bytes :=
 end Cbor
 end Model
 end JV
+
+namespace JV
+namespace Model
+namespace Cbor
+
+/-- the data-model core as `encode_cbor` sees it (no tags, no packing) -/
+inductive CV where
+  | null
+  | bool (b : Bool)
+  | int (i : Int)
+  | dbl (bits : Nat)
+  | str (s : Bytes)
+  | bytes (b : Bytes)
+  | arr (xs : List CV)
+  | map (ms : List (Bytes × CV))
+  deriving Repr, Inhabited
+
+/-- `(float)val` followed by `(double)valf == val` on bit patterns: the binary32 pattern if the double is exactly
+    representable (NaN never compares equal) -/
+def narrowF32 (b : Nat) : Option Nat :=
+  let s := b / 2 ^ 63
+  let e := b / 2 ^ 52 % 2048
+  let m := b % 2 ^ 52
+  if e = 2047 then (if m = 0 then some (s * 2 ^ 31 + 255 * 2 ^ 23) else none)
+  else if e = 0 then (if m = 0 then some (s * 2 ^ 31) else none)
+  else if 897 ≤ e ∧ e ≤ 1150 then                          -- unbiased exponent in [-126, 127]
+    (if m % 2 ^ 29 = 0 then some (s * 2 ^ 31 + (e - 896) * 2 ^ 23 + m / 2 ^ 29) else none)
+  else if 874 ≤ e ∧ e ≤ 896 then                           -- binary32 subnormal range: 2^-149 … 2^-127
+    let shift := 926 - e                                    -- bits of (2^52 + m) that must be zero
+    (if (2 ^ 52 + m) % 2 ^ shift = 0 then some (s * 2 ^ 31 + (2 ^ 52 + m) / 2 ^ shift) else none)
+  else none
+
+def encodeDouble (bits : Nat) : Bytes :=
+  match narrowF32 bits with
+  | some f => 0xfa :: beBytes 4 f
+  | none => 0xfb :: beBytes 8 bits
+
+mutual
+  /-- `encode_cbor(value)` on the core: definite lengths, shortest heads, float32 when exact -/
+  def encode : CV → Bytes
+    | .null => [0xf6]
+    | .bool b => [if b then 0xf5 else 0xf4]
+    | .int i => writeInt i
+    | .dbl b => encodeDouble b
+    | .str s => writeHead 3 s.length ++ s
+    | .bytes b => writeHead 2 b.length ++ b
+    | .arr xs => writeHead 4 xs.length ++ encodeList xs
+    | .map ms => writeHead 5 ms.length ++ encodeMembers ms
+  def encodeList : List CV → Bytes
+    | [] => []
+    | x :: xs => encode x ++ encodeList xs
+  def encodeMembers : List (Bytes × CV) → Bytes
+    | [] => []
+    | (k, x) :: ms => (writeHead 3 k.length ++ k) ++ encode x ++ encodeMembers ms
+end
+
+end Cbor
+end Model
+end JV
